@@ -6,6 +6,27 @@ Open Scope Z_scope.
 
 Ltac Zify.zify_post_hook ::= Z.div_mod_to_equations.
 
+(* ================= closed forms for the size of a secured chunk ================= *)
+(* total padding of a symmetric SignAndEncrypt chunk (AES block 16, one padding-size byte) *)
+Definition sym_pad (ss bodylen : Z) : Z :=
+  let es := 8 + bodylen + ss + 1 in 1 + (if es mod 16 =? 0 then 0 else 16 - es mod 16).
+(* total padding of an asymmetric chunk encrypted to a key of [rks] bytes *)
+Definition asym_pad (p : policy) (rks sks bodylen : Z) : Z :=
+  let pbs := rsa_plain_block p rks in
+  let mp := min_padding rks in
+  let es := 8 + bodylen + sks + mp in mp + (if es mod pbs =? 0 then 0 else pbs - es mod pbs).
+(* the size on the wire of a chunk with [bodylen] body bytes *)
+Definition secured_size (S : sender) (t : mtype) (bodylen : Z) : Z :=
+  let hs := 12 + len (sec_header S t) in
+  if secured (s_policy S) (s_mode S) then
+    match t with
+    | OPN => hs + cipher_text_size (rsa_plain_block (s_policy S) (s_rks S)) (s_rks S)
+                    (8 + bodylen + asym_pad (s_policy S) (s_rks S) (s_ks S) bodylen + s_ks S)
+    | _ => hs + 8 + bodylen + src_sym_sig (s_policy S) +
+           (match s_mode S with MSignEnc => sym_pad (src_sym_sig (s_policy S)) bodylen | _ => 0 end)
+    end
+  else hs + 8 + bodylen.
+
 (* ================= padding arithmetic ================= *)
 (* the padding makes sequence header + body + padding + signature a whole number of blocks,
    and is between the minimum padding and minimum padding + block - 1 *)
